@@ -287,3 +287,116 @@ T('g14_not_newer_as_negated_gt', ['C14'],
 B('g14_not_newer_negated_lt', ['C14'], 'R14.d',
   (ST, "        if mtime <= cached_modify_time:\n            resp.status_code = 304\n            resp.cache_control.max_age = cache_timeout\n            return resp\n",
        "        if mtime < cached_modify_time:\n            pass\n        else:\n            resp.status_code = 304\n            resp.cache_control.max_age = cache_timeout\n            return resp\n"))
+
+# ------------------------------------------------------------------ except (A,) + B: tuple constants built by concatenation
+T('g14_except_tuple_concatenated', ['C14'],
+  (ST, "IS_WINDOWS = sys.platform == 'win32'\n",
+       "IS_WINDOWS = sys.platform == 'win32'\n_PEEK_ERRORS = (IOError, OSError)\n_FS_ERRORS = (ValueError,) + _PEEK_ERRORS\n"),
+  (ST, 're:except \\(ValueError, IOError, OSError\\):', 'except _FS_ERRORS:'),
+  (ST, '        except (IOError, OSError):\n            file_obj.close()', '        except _PEEK_ERRORS:\n            file_obj.close()'),
+  (ST, "            full_path = find_file(self.search_paths, path)\n            if full_path is None:\n                raise NotFound(is_breaking=False)\n"
+       "        except _FS_ERRORS:\n            raise Forbidden(is_breaking=False)\n",
+       "            full_path = find_file(self.search_paths, path)\n        except _FS_ERRORS:\n            raise Forbidden(is_breaking=False)\n"
+       "        else:\n            if full_path is None:\n                raise NotFound(is_breaking=False)\n"))
+B('g14_except_concatenated_no_oserror', ['C14'], 'R14.c',
+  (ST, "IS_WINDOWS = sys.platform == 'win32'\n",
+       "IS_WINDOWS = sys.platform == 'win32'\n_VALUE_ERRORS = (ValueError,)\n_FS_ERRORS = _VALUE_ERRORS + (TypeError,)\n"),
+  (ST, "        fsize = os.path.getsize(path)\n    except (ValueError, IOError, OSError):", "        fsize = os.path.getsize(path)\n    except _FS_ERRORS:"))
+
+# ------------------------------------------------------------------ R14.f: time base / source / resolution of the served mtime
+_MT_IMPORT = 'from datetime import datetime\n'
+_MT_RET = '    return datetime.utcfromtimestamp(unix_mtime)\n'
+_MT_FN = ('def get_file_mtime(path, rounding=0):\n'
+          '    unix_mtime = round(os.path.getmtime(path), rounding)\n'
+          '    return datetime.utcfromtimestamp(unix_mtime)\n')
+# equivalent spellings of "UTC datetime of the file's mtime, whole seconds"
+T('g14f_fromtimestamp_utc_made_naive', ['C14'],
+  (ST, _MT_IMPORT, 'from datetime import datetime, timezone\n'),
+  (ST, _MT_RET, '    return datetime.fromtimestamp(unix_mtime, tz=timezone.utc).replace(tzinfo=None)\n'))
+T('g14f_gmtime_struct', ['C14'],
+  (ST, _MT_IMPORT, 'import time\nfrom datetime import datetime\n'),
+  (ST, _MT_RET, '    return datetime(*time.gmtime(unix_mtime)[:6])\n'))
+T('g14f_epoch_plus_delta', ['C14'],
+  (ST, _MT_IMPORT, 'from datetime import datetime, timedelta\n\n_EPOCH = datetime(1970, 1, 1)\n'),
+  (ST, _MT_RET, '    return _EPOCH + timedelta(seconds=unix_mtime)\n'))
+T('g14f_module_import_alias', ['C14'],
+  (ST, _MT_IMPORT, 'import datetime as _dt\n'),
+  (ST, _MT_RET, '    return _dt.datetime.utcfromtimestamp(unix_mtime)\n'))
+T('g14f_rebound_temporaries_stat', ['C14'],
+  (ST, _MT_FN,
+   'def get_file_mtime(path, rounding=0):\n'
+   '    ts = os.stat(path).st_mtime\n'
+   '    ts = round(ts, rounding)\n'
+   '    when = datetime.utcfromtimestamp(ts)\n'
+   '    modified = when\n'
+   '    return modified\n'))
+T('g14f_public_conversion_helper', ['C14'],
+  (ST, _MT_FN,
+   'def utc_datetime(seconds):\n'
+   '    return datetime.utcfromtimestamp(seconds)\n\n\n'
+   'def get_file_mtime(path, rounding=0):\n'
+   '    unix_mtime = round(os.path.getmtime(path), rounding)\n'
+   '    return utc_datetime(unix_mtime)\n'))
+T('g14f_truncated_after_construction', ['C14'],
+  (ST, _MT_FN,
+   'def get_file_mtime(path, rounding=0):\n'
+   '    return datetime.utcfromtimestamp(os.path.getmtime(path)).replace(microsecond=0)\n'))
+# local-time constructions (other shapes than the plain fromtimestamp(ts))
+B('g14f_fromtimestamp_local', ['C14'], 'R14.f', (ST, _MT_RET, '    return datetime.fromtimestamp(unix_mtime)\n'))
+B('g14f_fromtimestamp_tz_none_constant', ['C14'], 'R14.f',
+  (ST, _MT_IMPORT, 'from datetime import datetime\n\n_SERVER_TZ = None\n'),
+  (ST, _MT_RET, '    return datetime.fromtimestamp(unix_mtime, tz=_SERVER_TZ)\n'))
+B('g14f_localtime_struct', ['C14'], 'R14.f',
+  (ST, _MT_IMPORT, 'import time\nfrom datetime import datetime\n'),
+  (ST, _MT_RET, '    return datetime(*time.localtime(unix_mtime)[:6])\n'))
+B('g14f_local_labelled_utc', ['C14'], 'R14.f',
+  (ST, _MT_IMPORT, 'from datetime import datetime, timezone\n'),
+  (ST, _MT_RET, '    stamp = datetime.fromtimestamp(unix_mtime).replace(tzinfo=timezone.utc)\n    return stamp.replace(tzinfo=None)\n'))
+B('g14f_naive_utc_through_astimezone', ['C14'], 'R14.f',
+  (ST, _MT_IMPORT, 'from datetime import datetime, timezone\n'),
+  (ST, _MT_RET, '    return datetime.utcfromtimestamp(unix_mtime).astimezone(timezone.utc).replace(tzinfo=None)\n'))
+B('g14f_mktime_of_gmtime', ['C14'], 'R14.f',
+  (ST, _MT_IMPORT, 'import time\nfrom datetime import datetime\n'),
+  (ST, _MT_RET, '    return datetime.utcfromtimestamp(time.mktime(time.gmtime(unix_mtime)))\n'))
+B('g14f_local_on_one_path', ['C14'], 'R14.f',
+  (ST, _MT_RET, '    if IS_WINDOWS:\n        when = datetime.fromtimestamp(unix_mtime)\n    else:\n        when = datetime.utcfromtimestamp(unix_mtime)\n    return when\n'))
+B('g14f_local_in_public_helper', ['C14'], 'R14.f',
+  (ST, _MT_FN,
+   'def to_datetime(seconds):\n'
+   '    return datetime.fromtimestamp(seconds)\n\n\n'
+   'def get_file_mtime(path, rounding=0):\n'
+   '    unix_mtime = round(os.path.getmtime(path), rounding)\n'
+   '    return to_datetime(unix_mtime)\n'))
+# not the file's modification time at all
+B('g14f_ctime', ['C14'], 'R14.f', (ST, 'round(os.path.getmtime(path), rounding)', 'round(os.path.getctime(path), rounding)'))
+B('g14f_clock', ['C14'], 'R14.f', (ST, _MT_RET, '    return datetime.utcnow().replace(microsecond=0)\n'))
+# sub-second resolution survives: the echoed Last-Modified compares older than the file
+B('g14f_rounding_default_millis', ['C14'], 'R14.f', (ST, 'def get_file_mtime(path, rounding=0):', 'def get_file_mtime(path, rounding=3):'))
+B('g14f_not_rounded', ['C14'], 'R14.f', (ST, 'unix_mtime = round(os.path.getmtime(path), rounding)', 'unix_mtime = os.path.getmtime(path)'))
+B('g14f_caller_asks_for_millis', ['C14'], 'R14.f',
+  (ST, "            mtime = get_file_mtime(path)\n        except (ValueError, IOError, OSError):  # TODO",
+       "            mtime = get_file_mtime(path, rounding=3)\n        except (ValueError, IOError, OSError):  # TODO"))
+
+# ------------------------------------------------------------------ R14.e: arguments collected in a dict, path joined under another name
+_OPTS = ("        options = {\n"
+         "            'cache_timeout': self.cache_timeout,\n"
+         "            'cached_modify_time': %s,\n"
+         "            'mimetype': None,\n"
+         "            'default_text_mime': self.default_text_mime,\n"
+         "            'default_binary_mime': self.default_binary_mime,\n"
+         "            'file_wrapper': request.environ.get('wsgi.file_wrapper', FileWrapper),\n"
+         "        }\n")
+T('g14_glue_options_dict', ['C14'],
+  (ST, _GLUE_APP, _OPTS % 'request.if_modified_since' + "        return build_file_response(full_path, **options)\n"),
+  (ST, "            if not isinstance(path, (str, bytes)):\n                path = '/'.join(path)\n            full_path = find_file(self.search_paths, path)\n",
+       "            url_path = path\n            if not isinstance(url_path, (str, bytes)):\n                url_path = '/'.join(url_path)\n"
+       "            full_path = find_file(self.search_paths, url_path)\n"))
+B('g14_glue_options_dict_no_client_time', ['C14'], 'R14.e',
+  (ST, _GLUE_APP, _OPTS % 'None' + "        return build_file_response(full_path, **options)\n"))
+B('g14_glue_options_dict_key_omitted', ['C14'], 'R14.e',
+  (ST, _GLUE_APP, (_OPTS % 'request.if_modified_since').replace("            'cached_modify_time': request.if_modified_since,\n", '')
+   + "        return build_file_response(full_path, **options)\n"))
+B('g14_path_joined_twice', ['C14'], 'R14.e',
+  (ST, "            if not isinstance(path, (str, bytes)):\n                path = '/'.join(path)\n            full_path = find_file(self.search_paths, path)\n",
+       "            url_path = '/'.join(path)\n            rel = '/'.join(url_path)\n"
+       "            full_path = find_file(self.search_paths, rel)\n"))
